@@ -75,7 +75,21 @@ FORMS = [0, 0, 0, False, True, 1, 3, 9, "zlib", "gzip", "bz2", "lzma", "xz", ["z
 
 
 def is_object(dt):
-    return dt == "O" or (isinstance(dt, list) and any(f[1] == "O" for f in dt))
+    """does the dtype spec contain an object at any depth (numpy's dtype.hasobject)?"""
+    if dt == "O":
+        return True
+    if isinstance(dt, dict):
+        dt = dt["fields"]
+    if isinstance(dt, list):
+        return any(is_object(f[1]) for f in dt)
+    return False
+
+
+# dtypes that HAVE an object field without BEING object (kind 'V', hasobject True)
+OBJECT_FIELD_DTYPES = [[["a", "O"], ["b", "<i4"]], [["k", "<i4"], ["o", "O"]],
+                       [["inner", [["u", "<i2"], ["v", "O"]]], ["w", "<f8"]],
+                       [["p", "O", [2]], ["q", "<i4"]],
+                       [["outer", [["mid", [["deep", "O"]]], ["n", "u1"]]], ["z", ">f4"]]]
 
 
 def gen_arrays(rng, n):
@@ -189,6 +203,9 @@ def gen_loky(rng, quick):
                   {"dtype": "<f4", "shape": [30], "layout": "strided"}, {"dtype": "O", "shape": [40], "layout": "C"},
                   {"dtype": [["a", "<i4"], ["b", ">f8"], ["c", "S3"]], "shape": [9], "layout": "C"},
                   {"dtype": "<i8", "shape": [13], "layout": "memmap"},
+                  {"dtype": [["a", "O"], ["b", "<i4"]], "shape": [40], "layout": "C"},
+                  {"dtype": [["inner", [["u", "<i2"], ["v", "O"]]], ["w", "<f8"]], "shape": [5, 6], "layout": "F"},
+                  {"dtype": [["p", "O", [2]], ["q", "<i4"]], "shape": [30], "layout": "C"},
                   {"reduce": True, "dtype": "<i8", "shape": [4, 3], "ops": [["T"]]},
                   {"reduce": True, "dtype": "<i8", "shape": [4, 3], "order": "F", "ops": [["T"]]},
                   {"reduce": True, "dtype": "<i8", "shape": [6, 5], "ops": [["slice", [[1, 5, 2], [0, 5, 2]]]]},
@@ -311,8 +328,11 @@ def gen_routes(rng, n):
     cases = []
     for _ in range(n):
         k = rng.randrange(6)
-        if k == 0:
+        if k == 0 and rng.random() < 0.35:
             arr = {"dtype": "O", "shape": [rng.choice([3, 40])], "layout": "C"}
+        elif k == 0:
+            arr = {"dtype": rng.choice(OBJECT_FIELD_DTYPES), "shape": rng.choice([[2], [13], [3, 4]]),
+                   "layout": rng.choice(["C", "F"])}
         elif k == 1:
             arr = {"reduce": True, "dtype": "<i8", "shape": [4, 3], "order": rng.choice(["C", "F"]),
                    "ops": rng.choice([[["T"]], [["slice", [[1, 3, None], [None, None, None]]]], [["slice", [[None, None, 2], [None, None, None]]]]])}
@@ -330,6 +350,9 @@ def gen_routes(rng, n):
 def judge_route(c, r):
     if "harness_error" in r:
         return "harness error " + r["harness_error"] + r.get("tb", "")
+    if "forward_raise" in r:
+        return "array of %d bytes (dtype.hasobject=%s) with max_nbytes=%s: %s" % (
+            r["nbytes"], r["hasobject"], c["max_nbytes"], r["forward_raise"])
     if not r["forward_ok"]:
         return "the array rebuilt from the forward reduction differs from the array"
     thr = c["max_nbytes"]
@@ -351,11 +374,11 @@ def judge_route(c, r):
 def model_routes(ctx, routes, route_res):
     exprs, idx = [], []
     for i, (c, r) in enumerate(zip(routes, route_res)):
-        if "forward" not in r:
+        if "forward" not in r or "forward_ok" not in r:
             continue
         thr = c["max_nbytes"]
-        exprs.append("(route_code (forward_route %s %s %s %d), route_code (Ok (backward_route %s %s)))" % (
-            "true" if r["has_backing"] else "false", "true" if r["hasobject"] else "false",
+        exprs.append("(route_code (forward_route %s %s %d %s %d), route_code (Ok (backward_route %s %s)))" % (
+            "true" if r["has_backing"] else "false", "true" if r["hasobject"] else "false", r["dtype_kind"],
             "None" if thr is None else "(Some %d)" % thr, r["nbytes"],
             "true" if r["forward_memmap"] else "false", "true" if r["backward_is_joblib_temp"] else "false"))
         idx.append(i)
@@ -374,12 +397,17 @@ def model_routes(ctx, routes, route_res):
 def judge_loky(c, r):
     if "harness_error" in r:
         return "harness error " + r["harness_error"] + r.get("tb", "")
+    if "parallel_raise" in r:
+        return "Parallel(n_jobs=2, max_nbytes=%s) over the arrays raised %s (the sequential run succeeds)" % (
+            c["max_nbytes"], r["parallel_raise"])
+    if [(x["digest"], x["dtype"], x["shape"]) for x in r["seq"]] != [(x["digest"], x["dtype"], x["shape"]) for x in r["got"]]:
+        return "the parallel results differ from the sequential results (max_nbytes=%s)" % c["max_nbytes"]
     for spec, w, g in zip(c["arrays"], r["want"], r["got"]):
         if (w["digest"], w["dtype"], w["shape"]) != (g["digest"], g["dtype"], g["shape"]):
             return "the task saw %s %s %s for an array %s %s (max_nbytes=%s, %s)" % (
                 g["dtype"], g["shape"], g["digest"][:8], w["dtype"], w["shape"], c["max_nbytes"], spec)
         thr = c["max_nbytes"]
-        if not spec.get("reduce") and spec.get("layout") != "memmap" and spec["dtype"] != "O" and thr is not None:
+        if not spec.get("reduce") and spec.get("layout") != "memmap" and not is_object(spec["dtype"]) and thr is not None:
             if g["memmap"] != (w["nbytes"] > thr):
                 return "array of %d bytes with max_nbytes=%d: memmapped=%s" % (w["nbytes"], thr, g["memmap"])
     return None
